@@ -37,6 +37,7 @@ pub mod pg {
     #[verifier::external_body]
     pub fn fmt_opaque() -> (r: String) { unimplemented!() }
     pub struct BoxDynError;
+    impl core::fmt::Debug for BoxDynError { #[verifier::external_body] fn fmt(&self, f: &mut core::fmt::Formatter<'_>) -> core::fmt::Result { Ok(()) } }
     impl From<String> for BoxDynError { #[verifier::external_body] fn from(e: String) -> BoxDynError { BoxDynError } }
     /// ASSUMED here, PROVED in unit `trackers` (ChainTracker::new/step/stats): `step` fails iff the state has fewer than n_params entries
     #[verifier::external_body]
@@ -52,4 +53,31 @@ pub mod pg {
         #[verifier::external_body]
         pub fn stats(&self) -> ChainStats { unimplemented!() }
     }
+
+    // ---- channels, the reporter thread handle, and the sequential reading of the scoped chain threads (rule R-threads) ----
+    #[verifier::external_body]
+    #[verifier::accept_recursive_types(X)]
+    pub struct Receiver<X> { _p: core::marker::PhantomData<X> }
+    pub mod mpsc {
+        /// `mpsc::channel()`: a fresh sender/receiver pair
+        #[verifier::external_body]
+        pub fn channel<X>() -> (super::Sender<X>, super::Receiver<X>) { unimplemented!() }
+    }
+    /// the handle of the reporter thread (its body is dropped from the verified text): `join()` may return anything
+    #[verifier::external_body]
+    pub struct JoinHandleV { _p: u8 }
+    pub struct JoinError;
+    impl core::fmt::Debug for JoinError { #[verifier::external_body] fn fmt(&self, f: &mut core::fmt::Formatter<'_>) -> core::fmt::Result { Ok(()) } }
+    #[verifier::external_body]
+    pub fn vx_thread_spawned() -> JoinHandleV { unimplemented!() }
+    impl JoinHandleV {
+        #[verifier::external_body]
+        pub fn join(self) -> Result<(), JoinError> { unimplemented!() }
+    }
+    /// the next element of the zipped, consumed vector (`zip` pairs the elements in order)
+    #[verifier::external_body]
+    pub fn vx_pop_front<X>(q: &mut Vec<X>) -> (r: X)
+        requires old(q)@.len() > 0
+        ensures r == old(q)@[0], final(q)@ == old(q)@.subrange(1, old(q)@.len() as int)
+    { unimplemented!() }
 }
